@@ -4,6 +4,7 @@
 //! function, e.g. [`pixel::RenderConfig::run`] and
 //! [`voxel::RenderConfig::run`].
 #![warn(missing_docs)]
+#![allow(unexpected_cfgs)] // cfg(fidget_verif) verification hooks
 use fidget_core::{
     eval::Function,
     render::{ImageSize, RenderHandle, ThreadPool, TileSizes},
@@ -138,6 +139,8 @@ where
             tiles
                 .into_iter()
                 .map(|tile| {
+                    #[cfg(fidget_verif)]
+                    fidget_core::render::verif_sched::point("raster-tile");
                     if eval_config.is_cancelled() {
                         Err(())
                     } else {
@@ -153,6 +156,8 @@ where
             tiles
                 .into_par_iter()
                 .map_init(init, |(w, rh), tile| {
+                    #[cfg(fidget_verif)]
+                    fidget_core::render::verif_sched::point("raster-tile");
                     if eval_config.is_cancelled() {
                         Err(())
                     } else {
